@@ -243,10 +243,12 @@ def main(argv=None):
             agg['obligations'] += d['unsat'] + d['sat'] + d.get('unknown', 0)
             agg['obligations_discharged'] += d['unsat']
         for name, d in r['canaries'].items():
-            agg['canaries_total'] += d['refuted'] + d['not_refuted']
+            agg['canaries_total'] += d['refuted'] + d['not_refuted'] + d.get('unknown', 0)
             agg['canaries_refuted'] += d['refuted']
             if d['not_refuted']:
                 harness_errors.append(f'canary {name} not refuted in {label}')
+            if d.get('unknown'):
+                inconclusive.append(f'{label}: canary {name}: solver verdict unknown on {d["unknown"]} path(s)')
         if r['vacuous_paths']:
             harness_errors.append(f"{r['vacuous_paths']} vacuous path(s) in {label}")
         if r['stub_consistency'].get('sat') or r['stub_consistency'].get('unknown'):
